@@ -167,6 +167,7 @@ OPS = all_ops()
 
 
 class FsWorld(World):
+    prop = P
     name = "FS"
     uses_sandbox = True
 
